@@ -64,3 +64,42 @@ Example pq_size_undercounts :
   exists c s, kind c = Pers /\ reachable_fit c s /\
     size s = 4 /\ cap c = 4 /\ sum_sz (items s ++ inflight s) = 7.
 Proof. exact pq_size_undercounts_l. Qed.
+
+(* ---- round 3 ------------------------------------------------------------------------------------------------ *)
+(* pool reuse: request 0's blockingDone (object 0) goes back to the pool at its OnDone and is handed out again
+   to request 1; with wait_for_result an abandoned object (producer 0 gave up) is never pooled again *)
+Example w_pool_reuse :
+  let s := final (wc Mem false false) [LOffer 0 1; LObj 0 0; LRead; LDone 0 0; LPick 0; LOffer 1 1; LObj 1 0] in
+  held s = [(1%nat, 0%nat)] /\ pool s = [] /\ nobj s = 1%nat.
+Proof. vm_compute. repeat split; reflexivity. Qed.
+
+Example w_pool_abandoned :
+  let s := final (wc Mem false true) [LOffer 0 1; LCancel 0; LAwaitCtx 0; LRead; LDone 0 0; LPick 0; LOffer 1 1; LObj 1 1] in
+  held s = [(0%nat, 0%nat); (1%nat, 1%nat)] /\ pool s = [] /\ nobj s = 2%nat /\
+  pget 0%nat (prods s) = Some (PRet RCtx) /\ results s = [(0%nat, 0)].
+Proof. vm_compute. repeat split; reflexivity. Qed.
+
+(* cond.Broadcast with three counted waiters: blocked after the first send, resumed by each receive *)
+Definition b_trace : list label :=
+  [LOffer 0 4; LOffer 1 1; LOffer 2 2; LOffer 3 4; LBroadcast; LSelTok 1; LSelTok 2; LSelTok 3].
+Example w_broadcast :
+  let c := wc Mem true false in
+  option_map snd (step c (final c [LOffer 0 4; LOffer 1 1; LOffer 2 2; LOffer 3 4]) LBroadcast) = Some c_sigblocked /\
+  lock (final c [LOffer 0 4; LOffer 1 1; LOffer 2 2; LOffer 3 4; LBroadcast]) = BBcast /\
+  lock (final c [LOffer 0 4; LOffer 1 1; LOffer 2 2; LOffer 3 4; LBroadcast; LSelTok 1]) = BBcast /\
+  let s := final c b_trace in
+  reachable_api c s /\ lock s = Free /\ tok s = false /\ waiting s = 0 /\ cnt is_lefttok (prods s) = 3.
+Proof.
+  vm_compute. repeat split; try reflexivity. exists b_trace. vm_compute. reflexivity.
+Qed.
+
+(* released_when_space / progress_while_stuck: a state satisfying their hypotheses with a parked producer *)
+Example w_released_hyp :
+  let c := wc Mem true false in let s := final c [LOffer 0 4; LOffer 1 2; LRead] in
+  reachable_fit c s /\ stopped s = false /\ lock s = Free /\ stuck s /\ mu s = 10 /\
+  pget 1%nat (prods s) = Some (PInSelect 2).
+Proof.
+  split; [exists [LOffer 0 4; LOffer 1 2; LRead]; split; [repeat constructor; simpl; intros; discriminate|vm_compute; reflexivity]|].
+  vm_compute. repeat split; try reflexivity.
+  exists 1%nat, (PInSelect 2). split; [reflexivity|]. intros r; discriminate.
+Qed.
